@@ -63,6 +63,28 @@ def cond_true(D):
     return ('true', D)
 
 
+def discr_guard(crate, c):
+    """`discriminant(x) == k` / `!= k` as a computed boolean (`opt.is_none()`, `res.is_ok()`, `matches!(x, V)` in library MIR) is the
+    same test as the `match` edge on x"""
+    if c[0] != 'cmp' or c[1] not in ('eq', 'ne'):
+        return c
+    for a, b in ((c[2], c[3]), (c[3], c[2])):
+        if isinstance(a, tuple) and a[0] == 'discr' and isinstance(b, tuple) and b[0] == 'const':
+            m = re.match(r'^(?:const )?(-?\d+)_(isize|usize|[iu]\d+)$', b[1].strip())
+            if not m:
+                continue
+            k = int(m.group(1))
+            base = cond_discr(crate, a[1], a[2] if len(a) > 2 else '', k, [k])
+            if base[0] in ('discr_eq', 'isnot_any'):
+                return c
+            if c[1] == 'eq':
+                return base
+            if base[0] in ('present', 'absent', 'ok', 'err'):
+                return negate(base)
+            return ('isnot', base[1], base[2]) if base[0] == 'is' else c
+    return c
+
+
 def counter_guard(c):
     """`i < X.len()` on a 0-based, step-1 loop counter i is the loop test "X has a next element" (index-driven loops)"""
     from norm import _is_counter, _len_of
@@ -174,7 +196,7 @@ def guard_edges(g):
                         c = negate(c)
                     if not iv:
                         c = negate(c)
-                    c = counter_guard(c)
+                    c = discr_guard(g.crate, counter_guard(c))
                     gd_ = Guard(ctx, bb, lab, c, t.get('at'), D2)
                     gd_.origin = site_
                     out.append(gd_)
@@ -184,7 +206,7 @@ def guard_edges(g):
                     c = cond_true(D)
                     if not truth:
                         c = negate(c)
-                    out.append(Guard(ctx, bb, lab, counter_guard(c), t.get('at'), D))
+                    out.append(Guard(ctx, bb, lab, discr_guard(g.crate, counter_guard(c)), t.get('at'), D))
                 elif D[0] == 'discr':
                     c = cond_discr(g.crate, D[1], D[2] if len(D) > 2 else '', lab, arm_labels)
                     out.append(Guard(ctx, bb, lab, c, t.get('at'), D))
